@@ -1,0 +1,28 @@
+//go:build verif
+
+// Contracts for the verifier in /verif (comment-only file; contributes no declarations).
+package common
+
+// C15: before the records of a batch are keyed, the trie is shown EVERY URL of the batch, in order - also those it can
+// already resolve (a URL covered by a declared wildcard still adds nodes, and path-parameter convergence is only noticed
+// by the insert that causes it). The trie itself (toolkit-core/urltree) is TRUSTED; gShown is the ghost record of what it
+// was shown.
+//@ ghost var gShown gmap[int]string
+//@ ghost var gShownN int
+//@ iface URLTreeI.InsertWithConvergenceIndication
+//@   instantiate T=EmptyStruct
+//@   params url, value
+//@   modifies gShown, gShownN
+//@   ensures gShownN == old(gShownN) + 1 && gShown[old(gShownN)] == url && forall(i, int, i != old(gShownN) ==> gShown[i] == old(gShown[i]))
+//@ iface URLTreeI.Lookup
+//@   instantiate T=EmptyStruct
+//@   modifies nothing
+//@ func NormalizeTree
+//@   prop C15
+//@   requires gShownN >= 0
+//@   allocates struct__
+//@   modifies gShown, gShownN
+//@   loop 1 modifies gShown, gShownN
+//@   loop 1 invariant[shown-so-far] gShownN == old(gShownN) + idx1 && forall(i, 0, idx1, gShown[old(gShownN) + i] == urls[i]) && forall(i, 0, old(gShownN), gShown[i] == old(gShown[i]))
+//@   ensures[every-url-of-the-batch-is-shown-to-the-trie] result1 == nil ==> gShownN == old(gShownN) + len(urls) && forall(i, 0, len(urls), gShown[old(gShownN) + i] == urls[i])
+//@   ensures[earlier-ones-kept] forall(i, 0, old(gShownN), gShown[i] == old(gShown[i]))
